@@ -25,111 +25,202 @@ theorem zipSome_eq_none {α β γ : Type} {f : α → β → γ} {a : Option α}
     zipSome f a b = none ↔ a = none ∨ b = none := by
   cases a <;> cases b <;> simp
 
-/-! ## The struct iterator, field by field -/
+/-! ## Slots of struct fields -/
 
-theorem viewFields_nonopt (n : Bytes) (g : GoTy) (gfs : GoFields) (f : Field) (fs : List Field) (x : GoVal)
-    (xs : GoVals) (h : f.opt = false) :
+theorem notPtr_of_isBare {g : GoTy} (h : isBare g = true) : notPtr g = true := by
+  cases g <;> simp [isBare, bareNil] at h <;> rfl
+
+theorem isBare_ptr (g : GoTy) : isBare (.ptr g) = false := rfl
+
+theorem bareNil_isSome {g : GoTy} (h : isBare g = true) : ∃ nv, bareNil g = some nv := by
+  unfold isBare at h
+  cases hb : bareNil g with
+  | none => simp [hb] at h
+  | some nv => exact ⟨nv, rfl⟩
+
+/-- the nil of a bare nilable type is its own normal form and nothing but nil -/
+theorem bareNil_cases {g : GoTy} {nv : GoVal} (h : bareNil g = some nv) : nv = .nilSlice ∨ nv = .nilIface := by
+  cases g <;> simp [bareNil] at h
+  · left; exact h.symm
+  · rename_i f; cases f <;> simp at h; right; exact h.symm
+  · right; exact h.symm
+  · left; exact h.symm
+
+theorem bareNil_norm {g : GoTy} {nv : GoVal} (h : bareNil g = some nv) : nv.norm = nv := by
+  rcases bareNil_cases h with rfl | rfl <;> rfl
+
+theorem ptrElem_some {g g1 : GoTy} (h : ptrElem g = some g1) : g = .ptr g1 := by
+  cases g <;> simp [ptrElem] at h
+  rw [h]
+
+theorem fslot_value {g : GoTy} {o n : Bool} (h : fslot g o n = .value) :
+    o = false ∧ (n = false ∨ isBare g = false) := by
+  unfold fslot at h
+  cases o <;> cases hp : ptrElem g <;> cases n <;> cases hb : isBare g <;> simp [hp, hb] at h ⊢
+
+theorem fslot_optPtr {g g1 : GoTy} {o n : Bool} (h : fslot g o n = .optPtr g1) : o = true ∧ g = .ptr g1 := by
+  unfold fslot at h
+  cases o <;> cases hp : ptrElem g <;> cases n <;> cases hb : isBare g <;> simp [hp, hb] at h ⊢
+  all_goals (subst h; exact ptrElem_some hp)
+
+theorem fslot_optBare {g : GoTy} {o n : Bool} (h : fslot g o n = .optBare) :
+    o = true ∧ n = false ∧ isBare g = true := by
+  unfold fslot at h
+  cases o <;> cases hp : ptrElem g <;> cases n <;> cases hb : isBare g <;> simp [hp, hb] at h ⊢
+
+theorem fslot_nulBare {g : GoTy} {o n : Bool} (h : fslot g o n = .nulBare) :
+    o = false ∧ n = true ∧ isBare g = true := by
+  unfold fslot at h
+  cases o <;> cases hp : ptrElem g <;> cases n <;> cases hb : isBare g <;> simp [hp, hb] at h ⊢
+
+/-- what the struct iterator shows of one field -/
+def viewField (g : GoTy) (f : Field) (x : GoVal) : Option TL :=
+  match fslot g f.opt f.nullable with
+  | .value => view g f.ty f.nullable x
+  | .optPtr g1 =>
+    (match x with
+     | .nilPtr => some .absent
+     | .ptr v => view g1 f.ty f.nullable v
+     | _ => none)
+  | .optBare => if bareNil g = some x then some .absent else view g f.ty false x
+  | .nulBare => if bareNil g = some x then some .null else view g f.ty false x
+  | .bad => none
+
+theorem viewFields_cons (n : Bytes) (g : GoTy) (gfs : GoFields) (f : Field) (fs : List Field) (x : GoVal)
+    (xs : GoVals) :
     viewFields (.cons n g gfs) (f :: fs) (.cons x xs) =
-      zipSome (TLKVs.cons f.name) (view g f.ty f.nullable x) (viewFields gfs fs xs) := by
-  cases x <;> simp [viewFields, h]
+      zipSome (TLKVs.cons f.name) (viewField g f x) (viewFields gfs fs xs) := by
+  cases x <;> simp only [viewFields, viewField] <;> cases fslot g f.opt f.nullable <;> rfl
 
-theorem viewFields_opt_nil (n : Bytes) (g : GoTy) (gfs : GoFields) (f : Field) (fs : List Field)
-    (xs : GoVals) (h : f.opt = true) :
-    viewFields (.cons n (.ptr g) gfs) (f :: fs) (.cons .nilPtr xs) =
-      zipSome (TLKVs.cons f.name) (some .absent) (viewFields gfs fs xs) := by
-  simp [viewFields, h]
+def wtField (g : GoTy) (f : Field) (x : GoVal) : Bool :=
+  match fslot g f.opt f.nullable with
+  | .value => wt g f.ty f.nullable x
+  | .optPtr g1 =>
+    (match x with
+     | .nilPtr => true
+     | .ptr v => wt g1 f.ty f.nullable v
+     | _ => false)
+  | .optBare => bareNil g = some x || wt g f.ty false x
+  | .nulBare => bareNil g = some x || wt g f.ty false x
+  | .bad => false
 
-theorem viewFields_opt_ptr (n : Bytes) (g : GoTy) (gfs : GoFields) (f : Field) (fs : List Field) (v : GoVal)
-    (xs : GoVals) (h : f.opt = true) :
-    viewFields (.cons n (.ptr g) gfs) (f :: fs) (.cons (.ptr v) xs) =
-      zipSome (TLKVs.cons f.name) (view g f.ty f.nullable v) (viewFields gfs fs xs) := by
-  simp [viewFields, h]
+theorem wtFields_cons (n : Bytes) (g : GoTy) (gfs : GoFields) (f : Field) (fs : List Field) (x : GoVal)
+    (xs : GoVals) :
+    wtFields (.cons n g gfs) (f :: fs) (.cons x xs) = (wtField g f x && wtFields gfs fs xs) := by
+  cases x <;> simp only [wtFields, wtField] <;> cases fslot g f.opt f.nullable <;> rfl
 
-/-- an optional field holds a pointer -/
-theorem viewFields_opt_inv (n : Bytes) (g : GoTy) (gfs : GoFields) (f : Field) (fs : List Field) (x : GoVal)
-    (xs : GoVals) (h : f.opt = true) (ws : TLKVs)
-    (hw : viewFields (.cons n g gfs) (f :: fs) (.cons x xs) = some ws) :
-    ∃ g1, g = .ptr g1 ∧ (x = .nilPtr ∨ ∃ v, x = .ptr v) := by
-  cases x <;> simp [viewFields, h, zipSome_eq_some] at hw
-  · cases g <;> simp at hw
-    exact ⟨_, rfl, Or.inl rfl⟩
-  · cases g <;> simp at hw
-    exact ⟨_, rfl, Or.inr ⟨_, rfl⟩⟩
+/-- `compatFields`, by slot -/
+def compatField (g : GoTy) (f : Field) : Bool :=
+  match fslot g f.opt f.nullable with
+  | .value => compatible g f.ty f.nullable
+  | .optPtr g1 => compatible g1 f.ty f.nullable
+  | .optBare => compatible g f.ty false
+  | .nulBare => compatible g f.ty false
+  | .bad => false
 
-theorem wtFields_nonopt (n : Bytes) (g : GoTy) (gfs : GoFields) (f : Field) (fs : List Field) (x : GoVal)
-    (xs : GoVals) (h : f.opt = false) :
-    wtFields (.cons n g gfs) (f :: fs) (.cons x xs) = (wt g f.ty f.nullable x && wtFields gfs fs xs) := by
-  cases x <;> simp [wtFields, h]
+theorem compatFields_cons (n : Bytes) (g : GoTy) (gfs : GoFields) (f : Field) (fs : List Field) :
+    compatFields (.cons n g gfs) (f :: fs) = (n == f.name && compatField g f && compatFields gfs fs) := by
+  conv => lhs; unfold compatFields
+  congr 1; congr 1
+  unfold compatField fslot
+  cases ho : f.opt <;> cases hn : f.nullable <;> cases g <;>
+    simp [isBare, bareNil, ptrElem] <;> (try (rename_i lf; cases lf <;> simp))
 
-theorem wtFields_opt_nil (n : Bytes) (g : GoTy) (gfs : GoFields) (f : Field) (fs : List Field)
-    (xs : GoVals) (h : f.opt = true) :
-    wtFields (.cons n (.ptr g) gfs) (f :: fs) (.cons .nilPtr xs) = wtFields gfs fs xs := by
-  simp [wtFields, h]
+/-- what is stored into one field -/
+def assignField (g : GoTy) (f : Field) (v : TL) : Option GoVal :=
+  match fslot g f.opt f.nullable with
+  | .value => assignC g f.ty f.nullable v
+  | .optPtr g1 => if v = .absent then some GoVal.nilPtr else (assignC g1 f.ty f.nullable v).map GoVal.ptr
+  | .optBare => if v = .absent then bareNil g else assignC g f.ty false v
+  | .nulBare => if v = .null then bareNil g else assignC g f.ty false v
+  | .bad => none
 
-theorem wtFields_opt_ptr (n : Bytes) (g : GoTy) (gfs : GoFields) (f : Field) (fs : List Field) (v : GoVal)
-    (xs : GoVals) (h : f.opt = true) :
-    wtFields (.cons n (.ptr g) gfs) (f :: fs) (.cons (.ptr v) xs)
-      = (wt g f.ty f.nullable v && wtFields gfs fs xs) := by
-  simp [wtFields, h]
+theorem assignFields_cons (n : Bytes) (g : GoTy) (gfs : GoFields) (f : Field) (fs : List Field) (k : Bytes)
+    (v : TL) (es : TLKVs) :
+    assignFields (.cons n g gfs) (f :: fs) (.cons k v es) =
+      if k != f.name then none else zipSome GoVals.cons (assignField g f v) (assignFields gfs fs es) := by
+  conv => lhs; unfold assignFields
+  rfl
 
-theorem wtFields_opt_inv (n : Bytes) (g : GoTy) (gfs : GoFields) (f : Field) (fs : List Field) (x : GoVal)
-    (xs : GoVals) (h : f.opt = true)
-    (hw : wtFields (.cons n g gfs) (f :: fs) (.cons x xs) = true) :
-    ∃ g1, g = .ptr g1 ∧ (x = .nilPtr ∨ ∃ v, x = .ptr v) := by
-  cases x <;> simp [wtFields, h] at hw
-  · cases g <;> simp at hw
-    exact ⟨_, rfl, Or.inl rfl⟩
-  · cases g <;> simp at hw
-    exact ⟨_, rfl, Or.inr ⟨_, rfl⟩⟩
+def intsFitField (g : GoTy) (f : Field) (v : TL) : Bool :=
+  match fslot g f.opt f.nullable with
+  | .value => intsFit g f.ty f.nullable v
+  | .optPtr g1 => intsFit g1 f.ty f.nullable v
+  | .optBare => intsFit g f.ty false v
+  | .nulBare => intsFit g f.ty false v
+  | .bad => true
+
+theorem intsFitFields_cons (n : Bytes) (g : GoTy) (gfs : GoFields) (f : Field) (fs : List Field) (k : Bytes)
+    (v : TL) (es : TLKVs) :
+    intsFitFields (.cons n g gfs) (f :: fs) (.cons k v es) = (intsFitField g f v && intsFitFields gfs fs es) := by
+  conv => lhs; unfold intsFitFields
+  rfl
 
 /-! ## Pointers -/
 
-theorem unptr_false (g : GoTy) : unptr false g = some g := rfl
-
-theorem unptr_true_some {g g0 : GoTy} (h : unptr true g = some g0) : g = .ptr g0 := by
-  cases g <;> simp [unptr] at h
-  subst h; rfl
-
 theorem unptr_some {nul : Bool} {g g0 : GoTy} (h : unptr nul g = some g0) :
-    (nul = false ∧ g = g0) ∨ (nul = true ∧ g = .ptr g0) := by
+    g = .ptr g0 ∨ (nul = false ∧ g = g0 ∧ notPtr g = true) := by
+  cases g with
+  | ptr g1 => left; simp [unptr] at h; rw [h]
+  | _ => right; cases nul <;> simp [unptr] at h; subst h; exact ⟨rfl, rfl, rfl⟩
+
+theorem wrapFor_notPtr {g : GoTy} (x : GoVal) (h : notPtr g = true) : wrapFor g x = x := by
+  cases g <;> first | rfl | (simp [notPtr] at h)
+
+theorem unptr_notPtr {g : GoTy} (h : notPtr g = true) : unptr false g = some g := by
+  cases g <;> first | rfl | (simp [notPtr] at h)
+
+theorem view_wrapFor {nul : Bool} {g g0 : GoTy} (t : Ty) (x : GoVal) (h : unptr nul g = some g0) :
+    view g t nul (wrapFor g x) = view g0 t false x := by
+  rcases unptr_some h with rfl | ⟨rfl, rfl, hn⟩
+  · simp [wrapFor, view]
+  · rw [wrapFor_notPtr x hn]
+
+theorem compatible_of_unptr {nul : Bool} {g g0 : GoTy} (t : Ty) (h : unptr nul g = some g0)
+    (hc : compatible g t nul = true) : compatible g0 t false = true := by
+  rcases unptr_some h with rfl | ⟨rfl, rfl, _⟩
+  · simp only [compatible, Bool.and_eq_true] at hc; exact hc.2
+  · exact hc
+
+theorem notPtr_of_unptr {nul : Bool} {g g0 : GoTy} (t : Ty) (h : unptr nul g = some g0)
+    (hc : compatible g t nul = true) : notPtr g0 = true := by
+  rcases unptr_some h with rfl | ⟨rfl, rfl, hn⟩
+  · simp only [compatible, Bool.and_eq_true] at hc; exact hc.1
+  · exact hn
+
+theorem wt_wrapFor {nul : Bool} {g g0 : GoTy} (t : Ty) (x : GoVal) (h : unptr nul g = some g0) :
+    wt g t nul (wrapFor g x) = wt g0 t false x := by
+  rcases unptr_some h with rfl | ⟨rfl, rfl, hn⟩
+  · simp [wrapFor, wt]
+  · rw [wrapFor_notPtr x hn]
+
+/-- a compatible type that is not a pointer sits in a slot that is not nullable -/
+theorem compatible_notPtr_nul {g : GoTy} {t : Ty} {nul : Bool} (hn : notPtr g = true)
+    (h : compatible g t nul = true) : nul = false := by
   cases nul
-  · left; simp [unptr] at h; exact ⟨rfl, h⟩
-  · right; exact ⟨rfl, unptr_true_some h⟩
-
-theorem view_wrapPtr {nul : Bool} {g g0 : GoTy} (t : Ty) (x : GoVal) (h : unptr nul g = some g0) :
-    view g t nul (wrapPtr nul x) = view g0 t false x := by
-  rcases unptr_some h with ⟨rfl, rfl⟩ | ⟨rfl, rfl⟩
   · rfl
-  · simp [wrapPtr, view]
-
-theorem compatible_unptr {nul : Bool} {g g0 : GoTy} (t : Ty) (h : unptr nul g = some g0) :
-    compatible g t nul = compatible g0 t false := by
-  rcases unptr_some h with ⟨rfl, rfl⟩ | ⟨rfl, rfl⟩
-  · rfl
-  · simp [compatible]
-
-theorem wt_wrapPtr {nul : Bool} {g g0 : GoTy} (t : Ty) (x : GoVal) (h : unptr nul g = some g0) :
-    wt g t nul (wrapPtr nul x) = wt g0 t false x := by
-  rcases unptr_some h with ⟨rfl, rfl⟩ | ⟨rfl, rfl⟩
-  · rfl
-  · simp [wrapPtr, wt]
+  · cases g <;> simp [compatible, notPtr] at h hn
 
 /-- a compatible type in a nullable slot is a pointer -/
 theorem compatible_nul {g : GoTy} {t : Ty} (h : compatible g t true = true) :
-    ∃ g0, g = .ptr g0 ∧ compatible g0 t false = true := by
+    ∃ g0, g = .ptr g0 ∧ notPtr g0 = true ∧ compatible g0 t false = true := by
   cases g <;> simp [compatible] at h
-  exact ⟨_, rfl, h⟩
+  exact ⟨_, rfl, h.1, h.2⟩
 
 theorem compatible_unptr_some {g : GoTy} {t : Ty} {nul : Bool} (h : compatible g t nul = true) :
-    ∃ g0, unptr nul g = some g0 ∧ compatible g0 t false = true := by
-  cases nul
-  · exact ⟨g, rfl, h⟩
-  · obtain ⟨g0, rfl, h0⟩ := compatible_nul h
-    exact ⟨g0, rfl, h0⟩
+    ∃ g0, unptr nul g = some g0 ∧ compatible g0 t false = true ∧ notPtr g0 = true := by
+  cases hg : notPtr g
+  · cases g <;> simp [notPtr] at hg
+    simp only [compatible, Bool.and_eq_true] at h
+    exact ⟨_, rfl, h.2, h.1⟩
+  · have := compatible_notPtr_nul hg h
+    subst this
+    exact ⟨g, unptr_notPtr hg, h, hg⟩
 
-/-- a compatible type in a non-nullable slot is not a pointer -/
-theorem compatible_not_ptr {g : GoTy} {t : Ty} (h : compatible (.ptr g) t false = true) : False := by
-  simp [compatible] at h
+/-- a present value in a slot that is a pointer: a fresh pointer to what the type behind it gets -/
+theorem compatible_ptr {g : GoTy} {t : Ty} {nul : Bool} (h : compatible (.ptr g) t nul = true) :
+    notPtr g = true ∧ compatible g t false = true := by
+  simpa [compatible] using h
 
 /-! ## Widths -/
 
